@@ -74,7 +74,7 @@ var adapters = []*adapter{
 // ---------------------------------------------------------------------------
 // content
 
-var classIdx = map[string]byte{"valid": 0, "nildata": 1, "niltarget": 2, "badepoch": 3, "zerofee": 4, "nopayload": 5}
+var classIdx = map[string]byte{"valid": 0, "nildata": 1, "niltarget": 2, "badepoch": 3, "zerofee": 4, "nopayload": 5, "nilattdata": 6, "nilvalue": 7}
 
 // marker makes every response attributable: strategy call, provider (0xff
 // when the value must be the same whoever reports it), class, quality, dimension.
@@ -144,6 +144,9 @@ func mkAggregate(h *harness, c content) any {
 	}
 	a := &phase0.Attestation{AggregationBits: bits, Data: validAttData(h)}
 	copy(a.Signature[:], marker(h, 0xa1, c))
+	if c.Class == "nilattdata" { // only with C07_CRASHERS
+		a.Data = nil
+	}
 	return a
 }
 
@@ -190,6 +193,8 @@ func mkProposal(h *harness, c content) any {
 	case "nopayload":
 		body.ExecutionPayload = nil
 		p.ExecutionValue = big.NewInt(900_000_000)
+	case "nilvalue": // only with C07_CRASHERS
+		p.ConsensusValue = nil
 	}
 	return p
 }
